@@ -56,7 +56,7 @@ def _parse(out, res):
             res.violation = "temporal"
         if s.startswith("Error: Deadlock reached") and res.violation is None:
             res.violation = "deadlock"
-        m = re.match(r"<(\w+) line \d+, col \d+ to line \d+, col \d+ of module \w+>: (\d+):(\d+)", s)
+        m = re.match(r"<(\w+) line \d+, col \d+ to line \d+, col \d+ of module \w+(?: \([\d ]+\))?>: (\d+):(\d+)", s)
         if m:
             res.coverage[m.group(1)] = (int(m.group(2)), int(m.group(3)))
     if res.violation:
